@@ -114,18 +114,17 @@ static inline orc_bool orc_once_enter(OrcOnce *once, void **value) {
   }
 
   orc_once_mutex_lock ();
-  /* if the value was currently being initialized then check if we're the
-   * thread that is doing the initialization or not */
-  if (inited == 3) {
-    inited = __sync_val_compare_and_swap(&once->inited, 3, 3);
+  /* re-read the state under the mutex, whoever we are: the thread that won
+   * the compare-and-swap above can be overtaken on the way to the mutex by
+   * one that lost it, which then does the initialization */
+  inited = __sync_val_compare_and_swap(&once->inited, 3, 3);
 
-    /* the other thread initialized the value in the meantime so
-     * we can just return here */
-    if (inited == 1) {
-      *value = once->value;
-      orc_once_mutex_unlock ();
-      return TRUE;
-    }
+  /* the other thread initialized the value in the meantime so
+   * we can just return here */
+  if (inited == 1) {
+    *value = once->value;
+    orc_once_mutex_unlock ();
+    return TRUE;
   }
 
   return FALSE;
